@@ -104,13 +104,6 @@ def sv_parse(v):
     return (ma, mi, pa, tuple(pre.split(".")) if pre else None, build)
 
 
-def _pre_key(pre):
-    # no pre-release sorts after any pre-release; identifiers: numeric < alphanumeric, numeric by value, alphanumeric by ASCII
-    if pre is None:
-        return (1,)
-    return (0,) + tuple((0, int(x), "") if x.isdigit() else (1, 0, x) for x in pre) + ((-1, 0, ""),) * 0
-
-
 def sv_key(v):
     ma, mi, pa, pre, build = sv_parse(v)
     key = [ma, mi, pa]
@@ -157,10 +150,10 @@ def roundtrip_shard(arg):
     seed, idxs = arg
     sh = vp.Shard()
     mon = vp.Mon("inventory")
-    versions = ["0.0.1", "1.2.3", "1.10.0", "2.0.0-rc.1", "2.0.0", "10.20.30+build.5", "1.2.3-alpha.1"]
+    versions = ["0.0.1", "1.2.3", "1.10.0", "2.0.0-rc.1", "2.0.0", "10.20.30+build.5", "1.2.3-alpha.1", "0.0.2", "0.1.0", "0.1.7"]
     urls = ["https://example.com/a.tgz", "", "u \"q\" \\ \n", "日本", "x" * 200]
     tags = ["", "plain", 'q"', "nl\n", "é"]
-    reqs = ["*", ">=1.0.0", "^1.2", "<2.0.0", "=1.2.3", ">=2.0.0-rc.1", "~1.10"]
+    reqs = ["*", ">=1.0.0", "^1.2", "<2.0.0", "=1.2.3", ">=2.0.0-rc.1", "~1.10", "^0.0.1", "^0.0", "^0.1", "^0", "~1", "=1.2", "=0"]
     try:
         for idx in idxs:
             r = vp.rng(seed, "c18-rt", idx)
